@@ -222,6 +222,14 @@ def run(ctx):
                         ts_ok = tag(ts) == "op" and payload(ts)[0] == "ts.from_seconds" and kids(ts)[0] in params.values()
                         if not (price_ok and ts_ok):
                             bad = bad or "pushed element has price=%s timestamp=%s" % (sym.show(sym.field(pv, "price"), 4), sym.show(ts, 4))
+                        # round ids count the stored elements (the list starts with the round-0 placeholder), so the new
+                        # round's id is the length of the list it is appended to: the n-rounds-back and TWAP guards rely on it
+                        rid = ix.inline(sym.field(pv, "round_id"))
+                        while tag(rid) == "cast":
+                            rid = kids(rid)[0]
+                        base_list = kids(val)[0] if tag(val) == "vecpush" else None
+                        if not (tag(rid) == "op" and payload(rid)[0] == "len" and base_list is not None and ix.inline(kids(rid)[0]) == ix.inline(base_list)):
+                            bad = bad or "pushed element has round_id=%s, not the length of the list it is appended to" % sym.show(ix.inline(sym.field(pv, "round_id")), 5)
                 # arguments of the storing call are message fields
                 if variant == "AppendPrice":
                     args = [a.s(x) for x in e.args]
